@@ -5,7 +5,6 @@ import (
 
 	"github.com/HobbyOSs/gosk/internal/ast" // Import ast
 	"github.com/HobbyOSs/gosk/pkg/cpu"
-	"github.com/samber/lo" // lo をインポート
 )
 
 // Require66h はオペランドサイズプレフィックス (66h) が必要か判定します。
@@ -28,17 +27,17 @@ func (o *OperandPegImpl) Require66h() bool {
 		baseType := parsed.Type
 
 		switch {
-		case isR8Type(baseType) || (baseType == CodeM && parsed.DataType == ast.Byte):
+		case isR8Type(baseType) || parsed.DataType == ast.Byte:
 			inherentSize = 8
-		case isR16Type(baseType) || (baseType == CodeM && parsed.DataType == ast.Word):
+		case isR16Type(baseType) || parsed.DataType == ast.Word:
 			inherentSize = 16
-		case isR32Type(baseType) || (baseType == CodeM && parsed.DataType == ast.Dword):
+		case isR32Type(baseType) || parsed.DataType == ast.Dword:
 			inherentSize = 32
 		case isCREGType(baseType): // Check if it's a control register
 			inherentSize = 32 // Control registers (like CR0) are 32-bit in IA-32e
 		case isR64Type(baseType): // TODO: QWORD がサポートされたら M64 チェックを追加
 			inherentSize = 64
-		case baseType == CodeIMM || baseType == CodeIMM8 || baseType == CodeIMM16 || baseType == CodeIMM32 || baseType == CodeIMM64:
+		case (baseType == CodeIMM || baseType == CodeIMM8 || baseType == CodeIMM16 || baseType == CodeIMM32 || baseType == CodeIMM64) && len(o.parsedOperands) == 1:
 			// 即値自体から推定されるサイズを使用
 			immSize := getImmediateSizeType(parsed.Immediate)
 			switch immSize {
@@ -52,27 +51,7 @@ func (o *OperandPegImpl) Require66h() bool {
 				inherentSize = 64
 			}
 		case baseType == CodeM: // 明示的な DataType なしのメモリ
-			// メモリアドレスで使用されるレジスタに基づいて推定し、モードサイズにデフォルト設定
-			// この部分は resolveMemorySize ロジックと重複するため注意が必要
-			// ここでは単純化のため、他の情報がなければモードサイズにデフォルト設定すると仮定
-			// より堅牢な解決策には組み合わせたロジックが必要になる可能性がある
-			// まずレジスタに基づいて推定を試みる
-			mem := parsed.Memory
-			if mem != nil {
-				if strings.HasPrefix(mem.BaseReg, "E") || strings.HasPrefix(mem.IndexReg, "E") || mem.BaseReg == "ESP" || mem.IndexReg == "ESP" || mem.BaseReg == "EBP" || mem.IndexReg == "EBP" {
-					inherentSize = 32
-				} else if lo.Contains([]string{"BX", "SI", "DI", "SP", "BP"}, mem.BaseReg) || lo.Contains([]string{"SI", "DI"}, mem.IndexReg) {
-					inherentSize = 16
-				}
-			}
-			// それでも不明な場合は、モードに基づいてデフォルト設定
-			if inherentSize == 0 {
-				if is16bitMode {
-					inherentSize = 16
-				} else {
-					inherentSize = 32
-				}
-			}
+			// サイズ指定のないメモリはオペランドサイズを決めない (アドレスレジスタの幅はアドレスサイズ 67h の問題)
 		}
 
 		// 不一致をチェック
